@@ -12,26 +12,26 @@ import (
 // of enabled ops (valid-biased: ops that can succeed in the state, plus one representative per
 // rejection reason; rejected ops are checked by the monitors and never recursed into).
 type Alphabet struct {
-	Creates      []Op
-	Bidders      []string // accounts that try to bid
-	AllowBidders []string // accounts the external module may allow-list
-	AllowCaps    []string
-	UpdateCaps   []string
-	FixedAmts    []string // coin amounts for fixed-price bids (used in both denominations)
-	BatchPrices  []string
-	WorthAmts    []string
-	ManyAmts     []string
-	ModPrices    []string // absolute new prices offered to modifications
-	ModAmts      []string // absolute new amounts offered to modifications
-	Cancellers   []string
-	MaxK         int
-	Donate       []Op // donation templates (AID filled per auction)
+	Creates         []Op
+	Bidders         []string // accounts that try to bid
+	AllowBidders    []string // accounts the external module may allow-list
+	AllowCaps       []string
+	UpdateCaps      []string
+	FixedAmts       []string // coin amounts for fixed-price bids (used in both denominations)
+	BatchPrices     []string
+	WorthAmts       []string
+	ManyAmts        []string
+	ModPrices       []string // absolute new prices offered to modifications
+	ModAmts         []string // absolute new amounts offered to modifications
+	Cancellers      []string
+	MaxK            int
+	Donate          []Op // donation templates (AID filled per auction)
 	EntryIDMismatch bool // also offer allow-list entries whose own auction_id field names another auction
-	ModRejects   bool // include one invalid modification per rejection reason for every bid
-	MsgAddAllow  bool // include MsgAddAllowedBidder by every bidder at every state (C10)
-	Rejects      bool // include representative invalid ops while the auction is waiting or open
-	RejectsTerm  bool // ... and on vesting / finished / cancelled auctions too
-	ParamUpdates []Op
+	ModRejects      bool // include one invalid modification per rejection reason for every bid
+	MsgAddAllow     bool // include MsgAddAllowedBidder by every bidder at every state (C10)
+	Rejects         bool // include representative invalid ops while the auction is waiting or open
+	RejectsTerm     bool // ... and on vesting / finished / cancelled auctions too
+	ParamUpdates    []Op
 	// BlockStops restricts block targets to these instants (nil = every instant up to MaxK).
 	BlockStops []int
 }
